@@ -198,3 +198,22 @@ Ltac inv_deep_with Jf leaf :=
     | lazymatch goal with
       | |- inv _ ?m => let h := head_of m in unfold h
       end ].
+
+Lemma hoare_any A (P : State -> Prop) (m : M A) : hoare P m (fun _ _ => True) (fun _ => True).
+Proof. intros s _; destruct (m s); exact I. Qed.
+
+(* [hoare (fun _ => True) m (fun _ => Q) (fun _ => True)] where every successful
+   path of m ends in a [modify] establishing Q *)
+Ltac post_deep :=
+  repeat first
+    [ lazymatch goal with
+      | |- hoare _ (bind _ _) _ _ => eapply hoare_bind with (Q1 := fun _ _ => True); [apply hoare_any | intros ?]
+      | |- hoare _ (fail _) _ _ => apply hoare_fail; intros; exact I
+      | |- hoare _ (panic _) _ _ => apply hoare_panic; intros; exact I
+      | |- hoare _ (modify _) _ _ => apply hoare_modify; intros ? ?; cbn; reflexivity
+      | |- hoare _ (if ?b then _ else _) _ _ => destruct b eqn:?
+      | |- hoare _ (match ?x with _ => _ end) _ _ => destruct x eqn:?
+      end
+    | lazymatch goal with
+      | |- hoare _ ?m _ _ => let h := head_of m in unfold h
+      end ].
